@@ -72,6 +72,44 @@ Proof. exact run_nth. Qed.
 Theorem C18_run_is_spec : forall (cap : nat) (evs : list event), run cap evs = spec_attributions cap [] evs.
 Proof. exact run_is_spec. Qed.
 
+(* ALL connections of one session: run_conns lists every connection the listener hands out as
+   (index of its session, RemoteAddr()) - one for each session start and one for each further stream
+   a session opens later.  Whatever happens after the session was established (post: carriers of the
+   same or other ClientIDs with any client_ip, evictions from the bounded map, other sessions, streams),
+   every connection of that session carries the address looked up at establishment, which is the
+   sanitised client_ip of the most recent carrier with this ClientID among the last cap carriers
+   BEFORE the establishment (or empty). *)
+Theorem C18_session_address_fixed : forall (cap : nat) (pre : list event) (cid : N) (post : list event) (a : addr),
+  In (length (run cap pre), a) (run_conns cap (pre ++ Accept cid :: post)) ->
+  a = accept (state_after cap pre) cid /\ a = spec_attr cap (carriers_rev pre) cid.
+Proof. exact conns_address_of_establishment. Qed.
+
+(* the same without naming the establishment: connections of session k all carry the k-th looked-up address *)
+Theorem C18_conns_carry_session_address : forall (cap : nat) (evs : list event) (k : nat) (a : addr),
+  In (k, a) (run_conns cap evs) -> nth_error (run cap evs) k = Some a.
+Proof. exact conns_session_fixed. Qed.
+
+(* not vacuous: the session start and every later stream of an established session do yield a connection *)
+Theorem C18_conns_exist : forall (cap : nat) (pre : list event) (cid : N) (post : list event),
+  In (length (run cap pre), accept (state_after cap pre) cid) (run_conns cap (pre ++ Accept cid :: post)) /\
+  forall k, k < length (run cap pre) ->
+    exists a, nth_error (run cap pre) k = Some a /\ In (k, a) (run_conns cap (pre ++ Stream k :: post)).
+Proof. intros cap pre cid post. split; [apply conns_first_stream | intros k; apply conns_later_stream]. Qed.
+
+(* a session with four connections; between them a carrier of the same ClientID with another address,
+   one without address, and (capacity 1) a carrier of another ClientID that evicts it: all four
+   connections report 1.2.3.4:1.  The variant that looks the ClientID up per stream reports 1.2.3.4:1,
+   5.6.7.8:1, then no address. *)
+Example C18_session_address_fixed_witness :
+  let a := Parsed (repeat 0 10 ++ [255; 255; 1; 2; 3; 4])%N in
+  let b := Parsed (repeat 0 10 ++ [255; 255; 5; 6; 7; 8])%N in
+  let s1 := AStr ([49; 46; 50; 46; 51; 46; 52; 58; 49]%N) in
+  let s2 := AStr ([53; 46; 54; 46; 55; 46; 56; 58; 49]%N) in
+  let evs := [Carrier 1%N a; Accept 1%N; Carrier 1%N b; Stream 0; Carrier 2%N a; Stream 0; Carrier 1%N Absent; Stream 0] in
+  run_conns 1 evs = [(0, s1); (0, s1); (0, s1); (0, s1)] /\
+  conns_perstream accept (new addr ANil 1) [] evs = [(0, s1); (0, s2); (0, AStr []); (0, AStr [])].
+Proof. split; reflexivity. Qed.
+
 (* never another session's address: it is empty, or what a carrier with the SAME ClientID presented *)
 Theorem C18_never_foreign : forall (cap : nat) (pre : list event) (cid : N),
   accept (state_after cap pre) cid = AStr [] \/
